@@ -161,6 +161,7 @@ PROPS["C20"] = {
     "units": [
         # the reference client's requests under each compression, decoded by a plain HTTP server with the independent decoder of the announced name
         {"name": "C20ClientWire", "pkg": RC, "test": "TestVerifC20ClientWire", "kind": "enum", "timeout": 600},
+        {"name": "C20ServerWire", "pkg": RS, "test": "TestVerifC20ServerWire", "kind": "enum", "timeout": 600},
         {"name": "C20Histories", "pkg": COMP, "test": "TestVerifC20Histories", "kind": "rapid",
          "checks": {"quick": 1500, "thorough": 20000}, "shards": {"quick": 4, "thorough": 16}},
         {"name": "C20Enum", "pkg": COMP, "test": "TestVerifC20Enum", "kind": "enum",
